@@ -477,6 +477,10 @@ func init() {
 			c.EmailAuth2FA = false
 			c.ExpireAfter = []time.Duration{2 * time.Second, 30 * time.Second, 5 * time.Minute, time.Hour, 24 * time.Hour}[r.Intn(5)]
 			c.ExpireLate = r.Chance(1, 4)
+			if !c.ExpireLate && r.Chance(1, 4) {
+				c.ExpireWithRemember = true
+				c.ensureModules("remember")
+			}
 			if len(c.Whitelist) == 0 && r.Bool() {
 				c.Whitelist = []string{"app_cart"}
 			}
@@ -487,7 +491,7 @@ func init() {
 		},
 		Gen: func(r *Rng, tier string) *genProfile {
 			return &genProfile{MaxSteps: steps(tier, 40, 100), Default: 0, FollowUp: 60, Template: 35,
-				Templates: []string{"login_ok", "idle_probe", "idle_probe", "relogin_after_idle", "oauth_flow", "register_flow", "otp_flow", "recover_flow", "upgrade_to_expire"},
+				Templates: []string{"login_ok", "idle_probe", "idle_probe", "relogin_after_idle", "oauth_flow", "register_flow", "otp_flow", "recover_flow", "upgrade_to_expire", "cookie_then_idle"},
 				Weights: withW(loginWeights, map[string]int{"probe": 30, "advance": 10, "app_session_put": 8, "logout": 3, "oauth2_start": 4, "oauth2_callback": 4,
 					"register": 4, "drop_session": 1, "copy_cookie": 0, "stale_cookie": 0, "set_cookie": 0, "totp_setup": 3, "sms_setup": 3, "everify_start": 0}),
 				BadSecret: 20, ThreshGaps: 45, SmallGaps: 25,
